@@ -607,6 +607,33 @@ pub fn sess_f32(sid: u64, fam: &str, seed: u64, o: &Opts) -> Sess {
     s
 }
 
+/// kind "witness": operands with SMALL integer coordinates in general position (family
+/// latraw and friends: crossing points are not representable), presented on a 2^-10 grid - the
+/// recorded integer frame is 1024 x the real coordinate, results are snapped to that grid. The
+/// region is judged at witness points (cell centres) by C01_Witness; `wit` = the grid step.
+pub fn sess_witness(sid: u64, fam: &str, seed: u64, o: &Opts) -> Sess {
+    let mut rng = Rng::new(seed);
+    let mut s = Sess::new(sid, "witness", fam, seed);
+    let (a, b) = loop {
+        let (ca, cb) = canon_pair(fam, o.kmax, &mut rng);
+        let a = gen::present(&ca, gen::RANDOMISED, &mut rng);
+        let b = gen::present(&cb, gen::RANDOMISED, &mut rng);
+        let small = |m: &IMp| m.iter().all(|p| p.ext.iter().chain(p.holes.iter().flatten()).all(|q| q.0.abs() <= 7 && q.1.abs() <= 7));
+        if !too_big(&a, &b, o.max_edges) && small(&a) && small(&b) {
+            break (a, b);
+        }
+    };
+    let up = |m: &IMp| gen::map_mp(m, &|p| (p.0 * 1024, p.1 * 1024));
+    s.def("A", &up(&a), -10, "\"rel\":\"base\",\"wit\":1024");
+    s.def("B", &up(&b), -10, "\"rel\":\"base\",\"wit\":1024");
+    for (op, _) in run::OPS {
+        s.call(op, "A", "B", 'm', 'm', false);
+        s.call(op, "A", "B", 'm', 'm', true);
+    }
+    s.call("diff", "B", "A", 'm', 'm', false);
+    s
+}
+
 /// kinds "pf32" / "pf64": every call of the session in ONE coordinate type. The orchestrator
 /// records the same batch in two processes - one where this is the first thing the process
 /// computes, one after a warm-up call in the OTHER type on another thread (`--warm`) - and merges
